@@ -48,8 +48,8 @@ MANIFEST = dict(
          "reference interpreter bms_denote evaluated on the bytes the implementation wrote, compared with the in-memory chart. "
          "Proved for all inputs: find_lcm_spec (length kept, every input divides its output, every output is the input itself or "
          "< threshold, for every list of positive integers and every threshold), slot arithmetic (den | L -> num*(L/den) is an "
-         "integer in [0,L) denoting the same measure fraction), fill_slots keeps the line length (even data length, one object per "
-         "slot), 3-digit measure and base-36 id codecs inverse; layout injectivity by vm_compute on the regenerated tables. "
+         "integer in [0,L) denoting the same measure fraction), every assembled note line is '#'+3 digits+channel+':'+an even number "
+         "of characters, distinct slots give exactly one object per row (no merge), 3-digit measure and base-36 id codecs inverse; layout injectivity by vm_compute on the regenerated tables. "
          "bms_write_denotes is refuted by a machine-checked witness (':.3f' tempo rounding) = KNOWN finding; the whole-file "
          "statement under the guard is checked per run, not proved.",
     note="Trusted: Coq kernel+VM, generator/serialiser, gen_tables, shift_jis and str(float) oracles. Whole-file refinement "
